@@ -35,6 +35,20 @@ PROPS = {
                 assumptions=["HDS layout per ploop1_image.h / qemu parallels.txt; stub anchored on tests/data/expanding.hdd"]),
 }
 
+PROPS["C08"] = dict(
+    engine="history", level="exploration", quick=2500, thorough=120000,
+    rule=("one evaluation = one seeded access history (10-400 ops of seek/read/readinto/peek/readoffset/readall/tell/"
+          "read_sectors over 1-2 stream objects) replayed under two stream buffer sizes on one image (stub image of any "
+          "format, or one of the repo's real samples); oracle = length/position contract + single-array consistency of "
+          "every returned byte. distinct = (format, op kind, buffer size, tail?, aligned?, larger-than-buffer?, cache knob) "
+          "tuples; non-trivial = the operation is unaligned in offset or length."),
+    expected_probes=["stream.src_fixture", "stream.src_stub", "stream.cache_shrunk", "stream.two_buffer_sizes",
+                     "stream.align_ge_1MiB"] + ["stream.fmt_" + f for f in ("qcow2", "vmdk", "vhdx", "vhd", "vdi", "hds", "hdd")],
+    assumptions=["caller does not move the underlying handle behind the stream's back; single caller thread",
+                 "the cache knob re-wraps the reader's lru_cache attributes by name (skipped when absent)"],
+    stubs=["image writer peer", "storage (SimFile/SimHandle)", "namespace (SimFS)", "clients (seeded histories)"],
+)
+
 NOT_BUILT_REASON = "check not built yet in this session (see DESIGN.md section 11 for the build order); not claimed until its engine exists"
 
 NOT_APPLICABLE = {
@@ -49,6 +63,10 @@ _DISK_NOTE = ("trusted base: the writer stub's reading of the format, the refere
 _DISK_TECH = "deterministic simulation (stub writer peer + simulated storage + reference model oracle), seeded search, ddmin replay"
 
 MANIFEST_TEXT = {
+    "C08": dict(text="seeded deterministic simulation of client access histories over every stream class, two buffer sizes per history, "
+                     "self-consistency + contract oracle; sampled, not exhaustive",
+                design_ref="DESIGN.md 4/C08", note="trusted base: SimFile/SimHandle semantics, the contract model of AlignedStream positions; "
+                "a consistent misread is C01-C06's business, not C08's", technique="deterministic simulation of access histories (seeded search over op sequences x buffer sizes x cache knobs), ddmin replay"),
     "C01": dict(text=_DISK_TEXT, design_ref="DESIGN.md 4/C01", note=_DISK_NOTE, technique=_DISK_TECH),
     "C02": dict(text=_DISK_TEXT, design_ref="DESIGN.md 4/C02", note=_DISK_NOTE, technique=_DISK_TECH),
     "C03": dict(text=_DISK_TEXT, design_ref="DESIGN.md 4/C03", note=_DISK_NOTE, technique=_DISK_TECH),
